@@ -350,12 +350,39 @@ def override_call(v):
     return C
 
 
+def core_only_calls(v):
+    """two calls that use hl7apy.core only (text assigned to freshly built segments): in a process that has not imported
+    hl7apy.parser yet, the first of them triggers the library's lazy import of it"""
+    from hl7apy import core
+
+    def A0():
+        s = core.Segment('PID', version=v, validation_level=2)
+        s.pid_5 = 'A^B'
+        s.pid_3 = '1^^^X&1.2&ISO'
+        return s.to_er7()
+
+    def B0():
+        s = core.Segment('PV1', version=v, validation_level=2)
+        s.pv1_3 = 'W^1^2'
+        s.pv1_2 = 'I'
+        return s.to_er7()
+    return A0, B0
+
+
 def cold_main(argv):
     """entry of a fresh process: for every version, one two-thread schedule whose first thread is the first user of that
     version and is pre-empted at its j-th anchor event"""
     spec = json.load(open(argv[0]))
     env.import_hl7apy()
     res = []
+    first = None
+    if 'hl7apy.parser' not in sys.modules:
+        # before anything else imports the parser: two core-only calls under the same plan
+        A0, B0 = core_only_calls(spec['versions'][0])
+        pl0 = {0: {'anchor_first': {spec['d']}}} if spec.get('d') else ({0: {'anchor': {spec['j']}}} if spec.get('j') else {})
+        out0, bt0, hung0 = sched.run_pair(A0, B0, pl0)
+        first = {'version': spec['versions'][0], 'out': out0, 'hung': hung0, 'trace': [list(t) for t in bt0.trace],
+                 'blocked': bt0.blocked}
     for v in spec['versions']:
         A, B = cold_calls(v)
         loaded = any(m.startswith('hl7apy.v%s' % v.replace('.', '_')) and m.count('.') == 1 for m in sys.modules)
@@ -371,7 +398,7 @@ def cold_main(argv):
                     'trace': [list(t) for t in bt.trace], 'anchor_events': bt.acount,
                     'distinct_anchor_locations': len(bt.first_seen[0]),
                     'blocked': bt.blocked, 'hung': hung, 'was_loaded': loaded})
-    json.dump(res, open(argv[1], 'w'))
+    json.dump({'schedules': res, 'first_text_assignments': first}, open(argv[1], 'w'))
     return 0
 
 
@@ -402,7 +429,19 @@ def run_cold(spec, rec):
             if p.returncode != 0 or not os.path.exists(op):
                 rec.inconclusive_reason('cold schedule process failed (j=%d): %s' % (j, p.stderr.decode()[-300:]))
                 continue
-            for r in json.load(open(op)):
+            payload = json.load(open(op))
+            f0 = payload.get('first_text_assignments')
+            if f0 and not f0['hung']:
+                A0, B0 = core_only_calls(f0['version'])
+                want0 = [outcome(A0), outcome(B0)]
+                rec.count('cold_first_text_assignment_pairs')
+                if f0['trace']:
+                    rec.count('cold_first_text_assignment_pairs_switched')
+                if f0['out'] != want0:
+                    rec.violation('result-differs-under-threads:cold-start-before-the-parser-is-imported',
+                                  {'kind': 'cold', 'version': f0['version'], kind_: j, 'order': order},
+                                  {'sequential': str(want0)[:250], 'concurrent': str(f0['out'])[:250], 'trace': f0['trace'][:3]})
+            for r in payload['schedules']:
                 v = r['version']
                 switched = len(r['trace']) > 0
                 tr = tuple(tuple(t) for t in r['trace'])
